@@ -360,7 +360,12 @@ func (s *Service) dispatch(response map[string]map[string]any, client *ClientSer
 			logger.Debug(s.clients)
 			for _, c := range s.clients {
 
-				if channel, ok := c.Responses[RandID]; ok {
+				// agent requests register and remove their channels under the client mutex
+				c.Mutex.Lock()
+				channel, ok := c.Responses[RandID]
+				c.Mutex.Unlock()
+
+				if ok {
 
 					if val, ok := response["Body"]["Response"]; ok {
 						var (
@@ -693,7 +698,11 @@ func (s *Service) dispatch(response map[string]map[string]any, client *ClientSer
 				return
 			}
 
-			if channel, ok := client.Responses[RequestID]; ok {
+			client.Mutex.Lock()
+			channel, ok := client.Responses[RequestID]
+			client.Mutex.Unlock()
+
+			if ok {
 				channel <- Response
 			} else {
 				logger.Debug("[BodyListenerTransmit] Failed to retrieve response channel")
